@@ -366,20 +366,26 @@ pub fn run(ctx: &Ctx) -> CheckResult {
             let cmax = Cfg::p1(Kind::Max, n);
             let cmin = Cfg::p1(Kind::Min, n);
             let mut xs: Vec<f64> = vec![];
-            for_each_seq_exact(S_INT.len(), d, |seq| {
+            // one extra symbol (NaN in `xs`) stands for reset() on both instances
+            for_each_seq_exact(S_INT.len() + 1, d, |seq| {
                 xs.clear();
-                xs.extend(seq.iter().map(|&a| S_INT[a as usize]));
+                xs.extend(seq.iter().map(|&a| if (a as usize) < S_INT.len() { S_INT[a as usize] } else { f64::NAN }));
                 let mut a = make(&cmax);
                 let mut b = make(&cmin);
                 out.stats.states += 1;
                 out.stats.traces += 1;
                 out.stats.transitions += 2 * d as u64;
                 for (i, x) in xs.iter().enumerate() {
+                    if x.is_nan() {
+                        a.reset();
+                        b.reset();
+                        continue;
+                    }
                     let oa = a.next_s(*x).v[0];
                     let ob = -b.next_s(-*x).v[0];
                     out.stats.evaluations += 1;
                     if !(oa == ob) {
-                        let ops: Vec<Op> = xs[..=i].iter().map(|x| Op::S(*x)).collect();
+                        let ops: Vec<Op> = xs[..=i].iter().map(|x| if x.is_nan() { Op::Reset } else { Op::S(*x) }).collect();
                         out.fail(Violation::new(PROP, &cmax, &ops, "max-is-not-neg-min-neg").obs(f2s(oa)).exp(f2s(ob)).det("Maximum(x) must equal -Minimum(-x) exactly".into()));
                         return false;
                     }
@@ -392,6 +398,6 @@ pub fn run(ctx: &Ctx) -> CheckResult {
     }
     res.extra.insert("scale_factors".into(), json!(factors.len()));
     res.rule = "case = (configuration, stream, transform): two real instances fed x and c*x (or x+d) step by step; price-valued outputs must scale by c (shift by d), dimensionless ones stay unchanged, within 1e-12 relative to c*M for powers of two and 1e-9 (times the condition number, gated at 1e6) otherwise; SD and Bollinger half-widths compared as variances; non-trivial = step beyond the window".into();
-    res.bounds = format!("all indicators except RSI, periods {{1,2,3,5}}: all 4^{ds} positive scalar streams, all 4^{ds} streams over 3 values + reset, all streams over {{1e300,2e300,9.9e300,4e300}} with factors 2^21, 2^20, 2^-30 (indicators without running sums) (and all 5^(depth-1) streams with a 1e6 spike symbol) / all bar streams of length {dbar} over the grid; scale factors 2^k for k in {} plus 3, 0.1, 7.3, 1e-3; shifts 0.5, 1, 100; period 6001 on a 12007-step stream (factors 3 and 1/8, shift 1000); Maximum(x) = -Minimum(-x) on all 5^{} mixed-sign streams", if th { "-40..=40".to_string() } else { format!("{:?}", ks) }, if th { 9 } else { 8 });
+    res.bounds = format!("all indicators except RSI, periods {{1,2,3,5}}: all 4^{ds} positive scalar streams, all 4^{ds} streams over 3 values + reset, all streams over {{1e300,2e300,9.9e300,4e300}} with factors 2^21, 2^20, 2^-30 (indicators without running sums) (and all 5^(depth-1) streams with a 1e6 spike symbol) / all bar streams of length {dbar} over the grid; scale factors 2^k for k in {} plus 3, 0.1, 7.3, 1e-3; shifts 0.5, 1, 100; period 6001 on a 12007-step stream (factors 3 and 1/8, shift 1000); Maximum(x) = -Minimum(-x) on all 6^{} mixed-sign streams with reset()", if th { "-40..=40".to_string() } else { format!("{:?}", ks) }, if th { 9 } else { 8 });
     res
 }
